@@ -24,6 +24,8 @@ def run_one(req):
     raise RuntimeError("history_run produced nothing: " + p.stderr[-1500:])
 
 
+CODE2_STREAM = (b"c\x00\x00\x00\x00\x00\x00\x00\x00\x01\x00\x00\x00@\x00\x00\x00s\x04\x00\x00\x00d\x00\x00S(\x01\x00\x00\x00N(\x00\x00\x00\x00(\x00\x00\x00\x00(\x00\x00\x00\x00(\x00\x00\x00\x00"
+                b"s\x01\x00\x00\x00fs\x01\x00\x00\x00m\x01\x00\x00\x00s\x00\x00\x00\x00")
 PYPY_VERSIONS = ([2, 7], [3, 5], [3, 6], [3, 7], [3, 8], [3, 9], [3, 10])
 FLAGS = [0x43, 0x1000000, 0x100000 | 0x40, 0x200000 | 0x3, 0x400 | 0x800 | 0x43, 0x10000000 | 0x20, 0x2000 | 0x100, 0x400000]
 
@@ -52,6 +54,9 @@ def rand_op(rnd, files, mbytes):
         return {"k": "stdapi", "version": v, "pypy": rnd.random() < 0.35 and v in ([2, 7], [3, 5], [3, 6], [3, 7], [3, 8], [3, 9], [3, 10])}
     if k == "mdumps":
         return {"k": "mdumps", "value": rnd.randrange(18)}
+    if rnd.random() < 0.3:
+        # a marshalled Python 2 code object read with xdis.marsh.loads (the reader the Dropbox loader borrows)
+        return {"k": "mloads", "bytes": list(CODE2_STREAM), "version": "2.5"}
     return {"k": "mloads", "bytes": rnd.choice(mbytes)}
 
 
@@ -83,6 +88,10 @@ def sibling(rnd, probe, files):
     if k == "prettyflags":
         o["pypy"] = not probe.get("pypy")
         return o
+    if k in ("mloads", "mdumps"):
+        db = [f for f in files if "dropbox" in f]
+        if db and rnd.random() < 0.5:
+            return {"k": "load", "file": rnd.choice(db)}
     return o
 
 
@@ -99,7 +108,8 @@ def run(r):
     rnd = random.Random(r.seed * 1801 + 18)
     quick = r.tier == "quick"
     try:
-        files = [f for f in IG.corpus_files() if os.path.getsize(f) < 6000]
+        # every small corpus file, and the Dropbox-encrypted one whatever its size (its loader swaps a decoder into xdis.marsh)
+        files = [f for f in IG.corpus_files() if os.path.getsize(f) < 6000 or "dropbox" in f]
         mbytes = [list(b) for b in (b"i\x05\x00\x00\x00", b"(\x02\x00\x00\x00i\x01\x00\x00\x00N", b"s\x03\x00\x00\x00abc", b"[\x01\x00\x00\x00T", b"{i\x01\x00\x00\x00N0", b"g\x00\x00\x00\x00\x00\x00\xf8?",
                                        # Python 2 style streams: interned strings ('t') and references to them ('R')
                                        b"(\x03\x00\x00\x00t\x01\x00\x00\x00xt\x01\x00\x00\x00yR\x00\x00\x00\x00", b"(\x02\x00\x00\x00t\x05\x00\x00\x00alphaR\x00\x00\x00\x00",
